@@ -33,7 +33,7 @@ except Exception as e:
     meta = {'note': 'agent meta.json unreadable: %s' % e}
 r = subprocess.run(['/verif/tools/mutant.py', dst + '/patch.diff'] + checks, capture_output=True, text=True) if checks else subprocess.run(['true'], capture_output=True, text=True)
 print(r.stdout)
-meta_out = {'property': prop, 'summary': meta.get('summary'), 'needs': meta.get('needs'),
+meta_out = {'property': prop[:3], 'summary': meta.get('summary'), 'needs': meta.get('needs'),
             'files': meta.get('files'), 'confirmed_by_me': ran,
             'checks_run': r.stdout.strip().splitlines()}
 json.dump(meta_out, open(dst + '/meta.json', 'w'), indent=1)
